@@ -60,7 +60,15 @@ func c15Units(tier string, seed int64) []Unit {
 				words := make([][]uint64, nthreads)
 				solo := make([]string, nthreads)
 				for i := range words {
-					for s := uint64(1); s < 200; s++ {
+					if i == 0 {
+						// one check runs on the all-zero stream (the minimal test case: empty collections, identity permutation, ...)
+						rec := &Rec{}
+						zeros := make([]uint64, 64)
+						if res := rapid.VerifRunBuf(tbq, zeros, false, c03Prop(p.New(), rec)); res.Kind == rapid.VerifOK {
+							words[i] = zeros
+						}
+					}
+					for s := uint64(1); s < 200 && words[i] == nil; s++ {
 						rec := &Rec{}
 						res := rapid.VerifRunSeed(tbq, uint64(seed)*101+uint64(i)*1000+s, false, c03Prop(p.New(), rec))
 						if res.Kind == rapid.VerifOK {
